@@ -18,7 +18,7 @@ def run_scenarios(chk, scens, isolated=False):
             impl.append(o)
             mcases.append([6, 0, scen.FIXED, []])
         else:
-            impl.append(o[0])
+            impl.append([x[:3] + [[scen.canon_op(y) for y in x[3]]] if len(x) > 3 else x for x in o[0]])
             mcases.append(o[1])
     mres = C.run_model(mcases)
     model = [[scen.canon_result(x) for x in m] if isinstance(m, list) else m for m in mres]
@@ -26,8 +26,20 @@ def run_scenarios(chk, scens, isolated=False):
 
 
 def show_cycle(res):
-    r, log, store = res
-    return {"result": r, "requests": names(log), "datastore[root,timestamp,snapshot,targets]": store}
+    r, log, store = res[:3]
+    d = {"result": r, "requests": names(log), "datastore[root,timestamp,snapshot,targets]": store}
+    if len(res) > 3 and res[3]:
+        d["operations"] = [show_op(o) for o in res[3]]
+    return d
+
+
+def show_op(o):
+    if o[0] == 1:
+        return {"read": "stream", "requested": [o[1][0], C.b2s(o[1][1])], "delivered": C.b2s(o[2])[:80],
+                "delivered_len": len(o[2]), "ended_ok": o[3], "first_error": {0: None, 1: "transport", 2: "max-size", 3: "hash-mismatch"}.get(o[4], o[4])}
+    if o[0] == 3:
+        return {"save": o[1], "files": [["/".join(C.b2s(c) for c in p), len(b)] for p, b in o[2]]}
+    return o
 
 
 def describe(s, impl, model):
